@@ -137,3 +137,198 @@ var _ = late(func() {
 			}
 		}})
 })
+
+// C07.yielded-items-handed-over: a slice a Next hands out is the caller's from then on. When it is (a re-slicing of / an append
+// to) a buffer kept in a field of the wrapper, that field must be given a fresh buffer (or nil) before the return, on every path:
+// otherwise the next call builds its chunk in the same backing array and overwrites the chunk the caller still holds (an
+// "avoid one allocation per chunk" optimisation: chunks of [0 1 2 3] by 2 collected into a slice read [[2 3] [2 3]]).
+var _ = late(func() {
+	p := properties["C07"]
+	p.Rules = append(p.Rules, &Rule{ID: "C07.yielded-items-handed-over", Floor: 2, Clause: "every slice returned by a Next/Peek of an iterator or stream wrapper is either built in that call / pulled from the source, or comes from a buffer field of the wrapper that is replaced by a fresh buffer (or nil) between the read and the return on every path: a later call never writes into a slice already handed out",
+		Run: func(c *Ctx, r *R) {
+			for _, rel := range []string{"iterator", "stream"} {
+				fns := c.funcsOfPkg(rel)
+				sort.Slice(fns, func(i, j int) bool { return c.nameOf(fns[i]) < c.nameOf(fns[j]) })
+				for _, fn := range fns {
+					if fn.Parent() != nil || fn.Signature.Recv() == nil || (fn.Name() != "Next" && fn.Name() != "Peek") || fn.Signature.Results().Len() == 0 {
+						continue
+					}
+					if _, isSlice := fn.Signature.Results().At(0).Type().Underlying().(*types.Slice); !isSlice {
+						continue
+					}
+					name := c.nameOf(fn)
+					// the field loads a value is built from
+					var roots func(v ssa.Value, seen map[ssa.Value]bool, out *[]*ssa.UnOp)
+					roots = func(v ssa.Value, seen map[ssa.Value]bool, out *[]*ssa.UnOp) {
+						if v == nil || seen[v] {
+							return
+						}
+						seen[v] = true
+						switch x := v.(type) {
+						case *ssa.Slice:
+							roots(x.X, seen, out)
+						case *ssa.ChangeType:
+							roots(x.X, seen, out)
+						case *ssa.Phi:
+							for _, e := range x.Edges {
+								roots(e, seen, out)
+							}
+						case *ssa.Call:
+							if bi, ok := x.Call.Value.(*ssa.Builtin); ok && bi.Name() == "append" && len(x.Call.Args) > 0 {
+								roots(x.Call.Args[0], seen, out)
+							}
+						case *ssa.UnOp:
+							if x.Op != token.MUL {
+								return
+							}
+							if _, ok := x.X.(*ssa.FieldAddr); ok {
+								*out = append(*out, x)
+								return
+							}
+							if cell := cellOf(x.X); cell != nil {
+								for _, st := range storesTo(cell) {
+									roots(st.Val, seen, out)
+								}
+							}
+						}
+					}
+					k := 0
+					instrs(fn, func(rb *ssa.BasicBlock, ri int, in ssa.Instruction) {
+						ret, ok := in.(*ssa.Return)
+						if !ok || len(ret.Results) == 0 {
+							return
+						}
+						var lds []*ssa.UnOp
+						roots(returnedValue(ret, 0), map[ssa.Value]bool{}, &lds)
+						for _, ld := range lds {
+							fa := ld.X.(*ssa.FieldAddr)
+							fld := path(fa)
+							k++
+							replaced := false
+							instrs(fn, func(sb *ssa.BasicBlock, si int, sin ssa.Instruction) {
+								st, ok := sin.(*ssa.Store)
+								if !ok {
+									return
+								}
+								sfa, ok := st.Addr.(*ssa.FieldAddr)
+								if !ok || path(sfa) != fld {
+									return
+								}
+								afterLoad := (sb == ld.Block() && si > idxIn(ld)) || (sb != ld.Block() && ld.Block().Dominates(sb))
+								beforeRet := (sb == rb && si < ri) || (sb != rb && sb.Dominates(rb))
+								if !afterLoad || !beforeRet {
+									return
+								}
+								var back []*ssa.UnOp
+								roots(st.Val, map[ssa.Value]bool{}, &back)
+								fresh := true
+								for _, b2 := range back {
+									if path(b2.X) == fld {
+										fresh = false
+									}
+								}
+								if fresh {
+									replaced = true
+								}
+							})
+							r.ok(replaced, name+"|yield#"+itoa(k)+"|"+fieldName(fa.X.Type(), fa.Field), retPos(ret), "the slice returned is (built in) the wrapper's buffer "+fld+", and that field is not given a fresh buffer before this return: the next call reuses the backing array and overwrites the chunk the caller still holds")
+						}
+					})
+				}
+			}
+		}})
+})
+
+// C07.counter-bound: Counter(n) is `for i := 0; i < n; i++`: its Next ends the sequence under an ORDER test of the running index
+// against the bound (i >= n). An equality test (i == n) agrees for every n >= 0 and never becomes true for n < 0: the documented
+// empty sequence turns into an endless one.
+var _ = late(func() {
+	p := properties["C07"]
+	p.Rules = append(p.Rules, &Rule{ID: "C07.counter-bound", Floor: 1, Clause: "the Next of the iterator built by iterator.Counter compares its running index with the bound by order (>= / <), never by equality: for a negative bound an equality test never ends the sequence",
+		Run: func(c *Ctx, r *R) {
+			ctor := c.fn("iterator.Counter")
+			if ctor == nil {
+				r.undecided("iterator.Counter|missing", token.NoPos, "anchor not found")
+				return
+			}
+			// the Next of the type Counter returns
+			var next *ssa.Function
+			instrs(ctor, func(_ *ssa.BasicBlock, _ int, in ssa.Instruction) {
+				ret, ok := in.(*ssa.Return)
+				if !ok || len(ret.Results) != 1 {
+					return
+				}
+				v := returnedValue(ret, 0)
+				if mi, ok := v.(*ssa.MakeInterface); ok {
+					v = mi.X
+				}
+				nt, ok := origType(derefType(v.Type())).(*types.Named)
+				if !ok {
+					return
+				}
+				for _, f := range c.Funcs {
+					if f.Parent() == nil && f.Name() == "Next" && f.Signature.Recv() != nil {
+						if rt, ok := origType(derefType(f.Signature.Recv().Type())).(*types.Named); ok && rt.Obj() == nt.Obj() {
+							next = f
+						}
+					}
+				}
+			})
+			if next == nil {
+				r.undecided("iterator.Counter|next", ctor.Pos(), "the iterator type Counter returns (and its Next) was not found")
+				return
+			}
+			// the running index: the int field Next increments
+			idxField := ""
+			instrs(next, func(_ *ssa.BasicBlock, _ int, in ssa.Instruction) {
+				for _, f := range structFieldNames(next.Signature.Recv().Type()) {
+					if isFieldIncDec(in, f, +1) {
+						idxField = f
+					}
+				}
+			})
+			if idxField == "" {
+				r.undecided("iterator.Counter|index", next.Pos(), "no field of the counter is incremented by Next")
+				return
+			}
+			n := 0
+			instrs(next, func(b *ssa.BasicBlock, _ int, in ssa.Instruction) {
+				iff, ok := in.(*ssa.If)
+				if !ok {
+					return
+				}
+				cf, ok := (guard{cond: iff.Cond, val: true, blk: b}).asCmp()
+				if !ok {
+					return
+				}
+				isIdx := func(v ssa.Value) bool {
+					ld, ok := resolveVal(v).(*ssa.UnOp)
+					if !ok || ld.Op != token.MUL {
+						return false
+					}
+					fa, ok := ld.X.(*ssa.FieldAddr)
+					return ok && fieldName(fa.X.Type(), fa.Field) == idxField
+				}
+				if !isIdx(cf.x) && !isIdx(cf.y) {
+					return
+				}
+				n++
+				r.ok(cf.op != token.EQL && cf.op != token.NEQ, c.nameOf(next)+"|end-test#"+itoa(n), iff.Cond.Pos(), "the running index is compared with the bound by equality ("+path(cf.x)+" "+cf.op.String()+" "+path(cf.y)+"): Counter(n) with n < 0 never reaches it and yields 0, 1, 2, ... without end instead of nothing")
+			})
+			if n == 0 {
+				r.undecided(c.nameOf(next)+"|end-test", next.Pos(), "no test of the running index found")
+			}
+		}})
+})
+
+func structFieldNames(t types.Type) []string {
+	st, ok := derefType(t).Underlying().(*types.Struct)
+	if !ok {
+		return nil
+	}
+	var out []string
+	for i := 0; i < st.NumFields(); i++ {
+		out = append(out, st.Field(i).Name())
+	}
+	return out
+}
